@@ -197,6 +197,19 @@ def ret_origin_calls(f):
     return out
 
 
+def returns_call(f, call):
+    """the result of `call` is what the function returns (written to the return place directly or through a local)"""
+    if call.dest["l"] == 0 and not call.dest.get("p"):
+        return True
+    for b in f.live:
+        for st in f.stmts(b):
+            if st["k"] == "=" and st["p"]["l"] == 0 and not st["p"].get("p"):
+                o = f.stored(st)
+                if o.get("kind") == "call" and o["call"].bb == call.bb and not _fp(o.get("proj", [])):
+                    return True
+    return False
+
+
 def short(g):
     """`Type::method` (`Type::method::{closure#0}` for closures): stable, position-free name of a function"""
     m = re.match(r"^(.*?)((?:::\{closure#\d+\})+)$", g.path)
@@ -811,6 +824,53 @@ def one(rep, c, cfg):
                 rep.ob("R20.7", f"FutureReadOp::start: nothing is lowered or lifted when starting a read {tag}",
                        not s.calls([OPS + "lower", OPS + "lift"]), "", s.loc())
 
+        # the buffer has the payload's canonical layout; the waitable waited on is this end's handle
+        for ty in ("FutureWriteOp", "FutureReadOp"):
+            s_ = wop(c, ty, "start")
+            cn = s_.calls("Cleanup::new")
+            rep.ob("R20.7", f"{ty}::start: one buffer, allocated with the payload's elem_layout {tag}",
+                   len(cn) == 1 and not s_.in_cycle(cn[0].bb) and
+                   is_call(OPS + "elem_layout", proj=[])(s_.origin(cn[0].args[0])), "", s_.loc())
+        el = c.method("FutureVtable", "elem_layout", trait="FutureOps")
+        rep.saw(el)
+        rl = []
+        for b in el.live:
+            for st in el.stmts(b):
+                if st["k"] == "=" and st["p"]["l"] == 0 and not st["p"].get("p"):
+                    rl.append(el.stored(st))
+        rep.ob("R20.7", f"<&FutureVtable as FutureOps>::elem_layout returns vtable.layout {tag}",
+               len(rl) == 1 and is_arg(1, [".layout"], exact=True)(rl[0]) and not el.calls(), "", el.loc())
+        ww = wop(c, "FutureWriteOp", "in_progress_waitable")
+        rep.saw(ww)
+        rl = []
+        for b in ww.live:
+            for st in ww.stmts(b):
+                if st["k"] == "=" and st["p"]["l"] == 0 and not st["p"].get("p"):
+                    rl.append(ww.stored(st))
+        rep.ob("R20.7", f"FutureWriteOp::in_progress_waitable is the writer's handle {tag}",
+               len(rl) == 1 and is_arg(2, [".0", ".handle"], exact=True)(rl[0]) and not ww.calls(),
+               "the completion of this write would never be observed", ww.loc())
+        rw_ = wop(c, "FutureReadOp", "in_progress_waitable")
+        rep.saw(rw_)
+        hc = rw_.calls("RawFutureReader::handle")
+        rep.ob("R20.7", f"FutureReadOp::in_progress_waitable is the reader's handle {tag}",
+               len(hc) == 1 and len(rw_.calls()) == 1 and returns_call(rw_, hc[0]) and
+               op_flows(rw_, hc[0].args[0], is_arg(2, [".0"], exact=True)), "", rw_.loc())
+
+        # future.new: reader in the low half, writer in the high half (canonical ABI: ri | wi << 32)
+        rn = c.fn("future_support::raw_future_new")
+        rep.saw(rn)
+        mkw, mkr = rn.calls("RawFutureWriter::new"), rn.calls("RawFutureReader::new")
+        nwc = rn.calls(OPS + "new")
+        okh = len(mkw) == 1 and len(mkr) == 1 and len(nwc) == 1 and not rn.in_cycle(nwc[0].bb)
+        if okh:
+            ow, orr = rn.origin(mkw[0].args[0]), rn.origin(mkr[0].args[0])
+            okh = ow.get("kind") == "bin" and ow["op"] == "Shr" and is_call(OPS + "new", proj=[])(ow["a"]) and \
+                const_eval({k: v for k, v in ow["b"].items() if k != "casts"}) == 32 and \
+                is_call(OPS + "new", proj=[])(orr)
+        rep.ob("R20.7", f"raw_future_new: one future.new; writer = high half, reader = low half {tag}", okh,
+               "the two ends of the future are confused", rn.loc())
+
         # poll: the futures forward to poll_complete and translate the outcome
         pw = c.method("RawFutureWrite", "poll", trait="Future")
         pr = c.method("RawFutureRead", "poll", trait="Future")
@@ -832,14 +892,14 @@ def one(rep, c, cfg):
             cc = cn.calls("WaitableOperation::cancel")
             rep.ob("R20.7", f"{nm}::cancel forwards to WaitableOperation::cancel of its own operation and returns its "
                             f"result {tag}",
-                   len(cc) == 1 and every_return_passes(cn, [cc[0].bb]) and cc[0].dest["l"] == 0 and
+                   len(cc) == 1 and every_return_passes(cn, [cc[0].bb]) and returns_call(cn, cc[0]) and
                    is_call(nm + "::pin_project")(cn.origin(cc[0].args[0])) and
                    op_flows(cn, cc[0].args[0], is_arg(1, [], exact=True)), "", cn.loc())
         tw = c.method("FutureWrite", "poll", trait="Future")
         rep.saw(tw)
         pc = tw.calls(re.compile(r"RawFutureWrite<.*Future>::poll"))
         rep.ob("R20.7", f"FutureWrite::poll forwards to RawFutureWrite::poll of self.raw {tag}",
-               len(pc) == 1 and every_return_passes(tw, [pc[0].bb]) and pc[0].dest["l"] == 0 and
+               len(pc) == 1 and every_return_passes(tw, [pc[0].bb]) and returns_call(tw, pc[0]) and
                is_call("FutureWrite::pin_project")(tw.origin(pc[0].args[0])), "", tw.loc())
 
         cl = c.closures_of(pw)
@@ -888,7 +948,7 @@ def one(rep, c, cfg):
             rep.ob("R20.7", f"<&FutureVtable as FutureOps>::{nm} calls vtable.{nm} once with its arguments and returns "
                             f"its result {tag}",
                    len(ind) == 1 and len(mine) == 1 and every_return_passes(m, [mine[0].bb]) and
-                   not m.in_cycle(mine[0].bb) and mine[0].dest["l"] == 0 and len(mine[0].args) == m.argc - 1 and
+                   not m.in_cycle(mine[0].bb) and returns_call(m, mine[0]) and len(mine[0].args) == m.argc - 1 and
                    all(is_arg(i + 2, [], exact=True)(m.origin(a)) for i, a in enumerate(mine[0].args)),
                    "a different entry of the vtable is invoked", m.loc())
         rep.floor("R20.7", f"vtable forwarders {tag}", nfw, 10)
@@ -990,8 +1050,7 @@ def one(rep, c, cfg):
         BS, BD = sliced(f, dS), sliced(f, dD)
         sc = calls_in(f, BS, "WaitableOp::start_cancelled")
         rep.ob("R20.10", f"cancel in Start state: start_cancelled is returned, the host is never involved {tag}",
-               len(f.calls("WaitableOp::start_cancelled")) == 1 and len(sc) == 1 and sc[0].dest["l"] == 0 and
-               not sc[0].dest.get("p") and always(f, dS, [sc[0].bb]) and
+               len(f.calls("WaitableOp::start_cancelled")) == 1 and len(sc) == 1 and returns_call(f, sc[0]) and always(f, dS, [sc[0].bb]) and
                not calls_in(f, BS, ["WaitableOp::start", "WaitableOp::in_progress_cancel",
                                     "WaitableOp::in_progress_update", "WaitableOperation::poll_complete_with_code",
                                     "WaitableOp::result_into_cancel"]),
@@ -1025,7 +1084,7 @@ def one(rep, c, cfg):
             when = "after the cancel built-in" if any(x.bb in f.reachable(y.bb) for y in ipc) else "after a delivered code"
             rep.ob("R20.10", f"cancel: result_into_cancel ({when}) converts the Ready result of "
                              f"poll_complete_with_code and is returned {tag}",
-                   is_call("WaitableOperation::poll_complete_with_code", ["as Ready", ".0"])(o) and x.dest["l"] == 0,
+                   is_call("WaitableOperation::poll_complete_with_code", ["as Ready", ".0"])(o) and returns_call(f, x),
                    "", f.loc(x.bb))
         rep.ob("R20.10", f"cancel: every return passes start_cancelled or result_into_cancel {tag}",
                every_return_passes(f, [x.bb for x in ric] + [x.bb for x in f.calls("WaitableOp::start_cancelled")]),
